@@ -1,1 +1,20 @@
-(* C07_refuted_gates placeholder *)
+(* C07_refuted_gates.v — witness of the known finding "from_rpy/out-of-range-raises-vs-value": Quaternion(rpy=...) rejects
+   angles outside [-2pi, 2pi] with ValueError, QuaternionArray(rpy=...) has no such check and returns a quaternion. *)
+From Coq Require Import Reals List Lra.
+From Interval Require Import Tactic.
+From AhrsLib Require Import Base.
+From AhrsGen Require Import C07gen_R.
+From AhrsProps Require Import C07_tac.
+Import ListNotations.
+Open Scope R_scope.
+
+Theorem C07_from_rpy_range_refuted : exists a0 a1 a2,
+  C07_from_rpy_s_R a0 a1 a2 = Raise ValueError /\ is_val (C07_from_rpy_b1_R a0 a1 a2).
+Proof.
+  exists 7, 0, 0. assert (Hpi : 2 * PI < 7) by interval. assert (Hpi0 : 0 < PI) by exact PI_RGT_0. split.
+  - unfold C07_from_rpy_s_R. cbv zeta. repeat (head_dec; try reflexivity; try (exfalso; lra)).
+  - unfold C07_from_rpy_b1_R. cbv zeta. trig_hyps. abstract_trig.
+    match goal with |- is_val (if ?c then _ else _) => destruct c as [|N] end; [exact I|].
+    exfalso. unit_norm. lra.
+Qed.
+Print Assumptions C07_from_rpy_range_refuted.
